@@ -136,6 +136,10 @@ def make_kernel(kernel, d, bkind, beta, nu=None, wraps=1, skip_ratio=False):
             return None
         inside = [z3.And(le(0, up[j]), le(up[j], 1)) for j in range(d)]
         ctx.check("evaluated-proposals-are-inside-the-cube", z3.And(*inside))
+        if bkind in ("interior", "hard"):
+            r0 = ctx.check("proposal-is-the-documented-move(mu+sqrt(1-s^2)(u-mu)+s*sqrt(1/g)*L*z | u+s*L*z)", z3.And(*[eq(up[j], y_spec[j]) for j in range(d)]))
+            if r0.status != "holds":
+                return None  # the witness construction below presupposes this form
         accepted = all(a is b for a, b in zip(np.asarray(out[0], dtype=object).reshape(-1), up))
         # ---- the reverse move: same gamma value, witness normal draw
         if kernel == "tpcn":
@@ -412,6 +416,8 @@ def replay_kernel(kernel, d, bkind, beta, nu, m, label):
                 "what": f"{kernel}: from u=0.02 next to a hard wall {redraws}/200 proposals were drawn more than once (redraw until inside); the "
                         f"proposal density is renormalised by P(inside|u) which the acceptance ratio ignores"
                         + (f"; exact 1-D residual of detailed balance at (0.05, 0.6) for pi(u)=1+u: {res:.4f}" if res is not None else "")}
+    if label.startswith("proposal-is-the-documented-move"):
+        return replay_formula(kernel, d, nu, m)
     if bkind in ("interior", "hard") and d == 1 and not label.startswith("out-of-bounds"):
         return replay_interior(kernel, beta, nu, m, label)
     # wrapped moves of tpCN: compare the real acceptance factor with the exact density ratio of the (wrapped) move
@@ -456,6 +462,36 @@ def replay_kernel(kernel, d, bkind, beta, nu, m, label):
                         "wrapped_proposal": float(up[0]), "code_log_factor": fac, "exact_log_ratio_of_joint_densities": exact},
             "what": f"tpCN on a {bkind} coordinate: from u={u0:.4f} (mode mean {mu0:.4f}, scale {l00:.4f}, sigma {sg:.4f}) the proposal {y:.4f} is folded to "
                     f"{float(up[0]):.4f}; the code's log acceptance factor {fac:.6f} differs from the log ratio of joint densities {exact:.6f}"}
+
+
+def replay_formula(kernel, d, nu, m):
+    """real _propose under scripted draws against the closed formula, any d (correlated scale matrix)."""
+    from vf.engine.util import scripted_random
+    vals = {k: float(x) for k, x in m.items() if not isinstance(x, (bool, str))}
+    rng = np.random.RandomState(0)
+    u = np.array([vals.get(f"u{j}", 0.4) for j in range(d)])
+    mu = np.array([vals.get(f"mu0_{j}", 0.5) for j in range(d)])
+    if d == 1:
+        L = np.array([[abs(vals.get("L0_00", 0.2)) or 0.2]])
+    else:
+        L = np.array([[abs(vals.get("L0_00", 0.2)) or 0.2, 0.0], [vals.get("L0_10", 0.15) or 0.15, abs(vals.get("L0_11", 0.1)) or 0.1]])
+    sg, g = min(max(vals.get("sigma", 0.5), 0.05), 0.95), (vals.get("g", 1.3) or 1.3)
+    z = np.array([vals.get(f"z{j}", 0.3 * (j + 1)) or 0.3 * (j + 1) for j in range(d)])
+    ms = ModeStatistics(mu.reshape(1, d), (L @ L.T).reshape(1, d, d), np.array([float(nu)]))
+    cls = mcmc.TPCNRunner if kernel == "tpcn" else mcmc.RWMRunner
+    runner = cls(u.reshape(1, d), u.reshape(1, d), np.zeros(1), None, np.zeros(1, dtype=int), 1.0, ms, lambda x: (np.zeros(1), None), lambda q: q,
+                 None, 1, 1, None, None, False)
+    runner.sigmas = np.array([sg])
+    with scripted_random(gamma=lambda *a, **k: g, randn=lambda *a: z.copy()):
+        up = np.asarray(runner._propose(0), dtype=float)
+    if kernel == "tpcn":
+        expect = mu + math.sqrt(1 - sg * sg) * (u - mu) + sg * math.sqrt(1.0 / g) * (L @ z)
+    else:
+        expect = u + sg * (L @ z)
+    bad = not np.allclose(up, expect, rtol=1e-9, atol=1e-12)
+    return {"reproduced": bool(bad), "signature": f"{kernel}:proposal-formula:d{d}", "payload": {"u": u.tolist(), "L": L.tolist(), "z": z.tolist(), "proposal": up.tolist(), "expected": expect.tolist()},
+            "what": f"{kernel} _propose with Cholesky factor {L.tolist()}, sigma {sg}, gamma draw {g}, normal draw {z.tolist()}: proposal {up.tolist()} but the move "
+                    f"with noise covariance Sigma = L L^T gives {expect.tolist()}"}
 
 
 def replay_interior(kernel, beta, nu, m, label):
@@ -536,10 +572,10 @@ def obligations(tier):
     H = Fraction(1, 2)
     obs = [make_kernel("tpcn", 1, "interior", 1), make_kernel("tpcn", 1, "interior", H), make_kernel("tpcn", 1, "hard", H), make_kernel("rwm", 1, "hard", 1),
            make_kernel("rwm", 1, "periodic", H), make_kernel("rwm", 1, "reflective", 1), make_kernel("tpcn", 1, "periodic", 1),
-           make_propose_only(1501), make_modestats(1), make_modestats(2)]
+           make_propose_only(1501), make_modestats(1), make_modestats(2), make_kernel("tpcn", 2, "interior", 1)]
     if tier == "thorough":
         # (tpCN on a reflective coordinate is not enumerated: the parity forks exhaust the budget; its known finding is the
         #  same defect as on periodic coordinates, which the quick tier reports)
-        obs += [make_kernel("tpcn", 1, "interior", H, nu=5.0), make_kernel("tpcn", 1, "periodic", H, wraps=2), make_kernel("tpcn", 2, "interior", 1),
+        obs += [make_kernel("tpcn", 1, "interior", H, nu=5.0), make_kernel("tpcn", 1, "periodic", H, wraps=2), make_kernel("tpcn", 2, "interior", H, nu=4.0),
                 make_kernel("rwm", 2, "hard", 1), make_kernel("rwm", 2, "periodic", 1)]
     return obs
